@@ -345,6 +345,7 @@ func addStats(a *interp.Stats, b interp.Stats) {
 	a.QSat += b.QSat
 	a.QUnsat += b.QUnsat
 	a.QUnknown += b.QUnknown
+	a.QFresh += b.QFresh
 	a.Instrs += b.Instrs
 	a.ConcreteAsserts += b.ConcreteAsserts
 	if a.Covers == nil {
@@ -618,8 +619,8 @@ func checkMain(args []string) {
 					if len(pre) > 40 {
 						pre = pre[:40]
 					}
-					fmt.Fprintf(os.Stderr, "[%s] +paths=%d +q=%d solver=%.2fs wall=%.2fs prefix=%s | total paths=%d queue=%d findings=%d\n", r.Entry.Fn, rsp.Stats.Paths,
-						rsp.Stats.QSat+rsp.Stats.QUnsat+rsp.Stats.QUnknown, rsp.SolverS, rsp.WallS, pre, r.Stats.Paths, len(queue), len(r.Findings))
+					fmt.Fprintf(os.Stderr, "[%s] +paths=%d +q=%d fresh=%d solver=%.2fs wall=%.2fs prefix=%s | total paths=%d queue=%d findings=%d\n", r.Entry.Fn, rsp.Stats.Paths,
+						rsp.Stats.QSat+rsp.Stats.QUnsat+rsp.Stats.QUnknown, rsp.Stats.QFresh, rsp.SolverS, rsp.WallS, pre, r.Stats.Paths, len(queue), len(r.Findings))
 				}
 				mu.Unlock()
 				cond.Broadcast()
